@@ -23,9 +23,16 @@ def make_config(rng, profile, tier):
     cfg = specs.gen_model_config(rng, k_max=4, fancy_names=False, allow_cliff=False)
     cfg['names'] = rng.sample(['asc', 'b_time', 'b_cost', 'beta', 'BETA', 'b', 'b1', 'b10', 'mu', 'lambda',
                                'a_b', 'theta1'], cfg['K'])
+    if rng.random() < 0.02:
+        # a model with more parameters than a report is likely to truncate (printed tables, "first n" limits)
+        k = rng.randrange(61, 76)
+        cfg.update(family='quad', K=k, J=1, N=4, names=[f'p{i:02d}' for i in range(k)], init=[0.0] * k,
+                   assign=[[0, rng.randrange(0, cfg['C'] + 1)] for _ in range(k)],
+                   coef=[round(rng.uniform(-1.5, 1.5), 2) for _ in range(k)], bounds=[None] * k, fixed=[])
     cfg['chunk'] = rng.choice([None, None, None, 64, 512, 4096])
     cfg['threads'] = rng.choice([1, 2, 0])
-    cfg['dbname'] = rng.choice(['d', 'data set', 'swiss'])
+    # database names: anything the file system accepts
+    cfg['dbname'] = rng.choice(['d', 'data set', 'swiss', 'survey:2020', 'what?', 'a*b', 'x|y', 'q<1>'])
     return cfg
 
 
@@ -65,11 +72,23 @@ def _toml_values(rng):
 
 
 def make_ops(rng, cfg, profile, tier):
-    n = rng.randrange(4, 22)
+    n = rng.randrange(4, 22) if cfg['K'] <= 10 else rng.randrange(3, 6)
     ops = []
     for _ in range(n):
         r = rng.random()
         mi = rng.randrange(len(MODELS)) if rng.random() < 0.4 else 0
+        if cfg['K'] > 10:
+            # wide model: estimate once or twice, write and reload the reports
+            kind = rng.choice(['ESTIMATE', 'WRITE_HTML', 'WRITE_LATEX', 'WRITE_F12', 'WRITE_PICKLE', 'LOAD', 'DUMP_DB'])
+            if kind == 'ESTIMATE' or not ops:
+                ops.append({'op': 'ESTIMATE', 'a': [0, True, True, 0]})
+            elif kind in ('DUMP_DB',):
+                ops.append({'op': kind, 'a': []})
+            elif kind == 'LOAD':
+                ops.append({'op': kind, 'a': [rng.randrange(1 << 16)]})
+            else:
+                ops.append({'op': kind, 'a': [rng.randrange(1 << 16), rng.random() < 0.5]})
+            continue
         if r < 0.22:
             boot = rng.choice([0, 0, 2]) if cfg['K'] >= 2 else 0
             ops.append({'op': 'ESTIMATE', 'a': [mi, rng.random() < 0.6, rng.random() < 0.7, boot]})
@@ -106,6 +125,8 @@ def fault_plans(rng, spec, base, tier):
     plans = []
     if not allev:
         return plans
+    if spec['config']['K'] > 10:
+        return []   # wide models are slow: they exist for the report checks, faults are covered by the small ones
     for _ in range(3 if tier == 'quick' else 10):
         op, ev = allev[rng.randrange(len(allev))]
         plans.append([{'kind': 'crash', 'op': op, 'event': ev}])
@@ -138,7 +159,8 @@ def simplifications(spec):
 
 def nontrivial(spec, res):
     p = res.get('probes', {})
-    return p.get('second file of one kind for one model', 0) >= 1 or p.get('planted name collided', 0) >= 1
+    return p.get('second file of one kind for one model', 0) >= 1 or p.get('planted name collided', 0) >= 1 \
+        or spec['config']['K'] > 10
 
 
 EXEMPT = re.compile(r'^(__.*\.iter(\.tmp)?|biogeme\.toml)$')
@@ -258,6 +280,13 @@ class Session:
         out['stats'] = {k: (fhex(v[0]) if isinstance(v[0], (int, float)) or hasattr(v[0], 'hex') else str(v[0]), v[1])
                         for k, v in gs.items()}
         out['params'] = repr(r.get_estimated_parameters(only_robust=False).to_dict())
+        out['f12'] = r.get_f12()
+        out['str'] = str(r)
+        out['short'] = r.short_summary()
+        if self.cfg['K'] > 10:
+            # wide model: the pairwise tables cost seconds each; one full report is enough
+            out['html_a'] = r.get_html(False)
+            return out
         out['corr'] = repr(r.get_correlation_results().to_dict())
         out['varcovar'] = repr(r.get_var_covar().to_dict())
         out['robvarcovar'] = repr(r.get_robust_var_covar().to_dict())
@@ -266,9 +295,6 @@ class Session:
         out['html_r'] = r.get_html(True)
         out['html_a'] = r.get_html(False)
         out['latex'] = r.get_latex()
-        out['f12'] = r.get_f12()
-        out['str'] = str(r)
-        out['short'] = r.short_summary()
         return out
 
     def _listing(self, text, r, what, sig):
